@@ -766,14 +766,21 @@ DJV_CMD(reopen, "reopen")
     std::map<int64_t, std::string> gbefore;
     {
         quiet_guard qg;
+        // the track the last call went through is asked FIRST, before anything else is read (what a call left
+        // behind in an object shared by all handles is most likely to be about that track), then the other
+        // handles held, then the tracks only tracks() knows
+        auto lt = S.tracks.find(S.last_track);
+        if (lt != S.tracks.end()) gbefore.emplace(lt->second.id(), track_getters_text(lt->second));
+        for (auto& kv : S.tracks)
+            if (!gbefore.count(kv.second.id())) gbefore.emplace(kv.second.id(), track_getters_text(kv.second));
         try
         {
-            for (auto& t : DB().tracks()) gbefore.emplace(t.id(), track_getters_text(t));
+            for (auto& t : DB().tracks())
+                if (!gbefore.count(t.id())) gbefore.emplace(t.id(), track_getters_text(t));
         }
         catch (const std::exception&)
         {
         }
-        for (auto& kv : S.tracks) gbefore[kv.second.id()] = track_getters_text(kv.second);
     }
     reset_all();
     e::engine_schema loaded{};
